@@ -67,6 +67,9 @@ func GenArch(d Drawer, firstOp byte, top bool) wdc.Arch {
 	default:
 		s.S = Draw16(d, "s")
 	}
+	if (firstOp == 0x00 || firstOp == 0x02) && d.Intn("s-on-vector", 3) == 0 {
+		s.S = 0xffe4 + uint16(d.Intn("s-vec", 10)) // the interrupt entry pushes onto its own vector
+	}
 	s.DBR, s.K = DrawBank(d, "dbr"), DrawBank(d, "k")
 	if top && d.Intn("dbr-ff", 2) == 0 {
 		s.DBR = 0xff
